@@ -33,4 +33,4 @@ def run(rep, tier, seed, replay):
         "failed_plan_checks": s.get("c17_bad", 0), "cases": s.get("cases", 0), "histogram": r["hist"],
         "samples": [{"summary": s}],
     })
-    rep.assumptions = ["pkh/wpkh/sh(wpkh) plans are not generated by this engine yet"]
+    rep.assumptions = ["lock sufficiency / necessity / exactness are theorems about the model (Properties/C17.v); the per-run probes tie the implementation's reported locks to it"]
